@@ -359,7 +359,7 @@ func commuteCheck(mc *modeCtx, fi *FuncInfo, s *ast.RangeStmt, key string) (item
 	}
 	ks := x.tm.SortOf(mt.Key())
 	k1, k2 := x.ctx.Fresh("k1", ks), x.ctx.Fresh("k2", ks)
-	domH := x.get(st, mapDomKey(ks), ArrSort(SRef, ArrSort(ks, SBool)))
+	domH := x.get(st, mapDomKey(ks, x.tm.SortOf(mt.Elem())), ArrSort(SRef, ArrSort(ks, SBool)))
 	st.guard(Not(Eq(m, TNull)))
 	st.guard(And(Sel(Sel(domH, m), k1), Sel(Sel(domH, m), k2), Not(Eq(k1, k2))))
 	runBody := func(st *State, k *Term) *State {
